@@ -27,6 +27,7 @@ import (
 	"sync"
 	"sync/atomic"
 	"time"
+	"verif/harness/internal/sx"
 
 	bleve "github.com/blevesearch/bleve/v2"
 	"github.com/blevesearch/bleve/v2/analysis/analyzer/keyword"
@@ -579,6 +580,9 @@ func run(c *core.Ctx) error {
 	}
 	if _, ok := c.ModelCheck("ScorchDisk", "ScorchDisk_mc_content.cfg", core.Workers(8), core.Timeout(25*time.Minute), core.Heap(8000)); !ok {
 		return nil
+	}
+	if err := sx.PlannerContract(c, "c05"); err != nil {
+		return err
 	}
 	behs, err := c.Simulate("Index", "Index_sim_c05.cfg", c.Pick(40, 400), c.Pick(30, 45), c.Seed, core.Timeout(10*time.Minute))
 	if err != nil {
